@@ -281,7 +281,16 @@ def check_owner_moves(run, db):
     return n
 
 
+def check_failed_block_request(run, db):
+    """a block request that fails (the upstream call throws, or the source itself throws out_of_memory) leaves the arena and the block
+    source as they were: cursors, sizes and lists are written only after the memory was obtained (shared rule R-THROW.7 of C03,
+    restricted to the block owners)"""
+    from rules import c03
+    return c03.check_failed_growth(_Renamed(run, 'R-ARENA.fail'), db, only=BLOCK_OWNERS + ('detail::temporary_block_allocator',))
+
+
 def run(run):
+    run.rule('R-ARENA.fail', 'a failed block request leaves arena and block source unchanged', floor=6)
     run.rule('R-ARENA.move', 'move construction / assignment / swap of block owners transfer every block list together with the block source', floor=10)
     run.rule('R-ARENA.pop', 'popped blocks flow only into deallocate_block', floor=4)
     run.rule('R-ARENA.dtor', 'destructor drains cache then used stack', floor=4)
@@ -303,5 +312,7 @@ def run(run):
             run.broke('memory_arena_cache members not found [%s]' % cfg)
         if check_block_sources(run, db) < 3:
             run.broke('block sources not found [%s]' % cfg)
+        if check_failed_block_request(run, db) < 3:
+            run.broke('block request functions not found [%s]' % cfg)
         if check_owner_moves(run, db) < 6:
             run.broke('block owners with move operations not found [%s]' % cfg)
